@@ -91,7 +91,8 @@ inline Plan make_plan(Rng& g) {
         } // else unrouted
     }
     unsigned nmain = (unsigned)g.below(12); // inc a0 count before the idle loop
-    bool use_idle = g.chance(9, 10);
+    bool use_idle = g.chance(8, 10);
+    bool far_loop = false;
     // timers
     struct TCfg {
         bool on;
@@ -168,10 +169,21 @@ inline Plan make_plan(Rng& g) {
         p.w((u16)(BRR_M1 | g.pick(conds)));
         p.w(NOP);
         p.w2(BR, (u16)main_loop);
-    } else {
+    } else if (g.chance(1, 2)) {
         u32 loop = p.at;
         p.w(INC_A0);
         p.w2(BR, (u16)loop);
+    } else {
+        // a busy loop that bounces between the two 64K program pages: the branch at L goes to 0x10000+L (the same low 16
+        // address bits as its own address, but not a self-branch: nothing here idles), the code there comes back
+        u32 L = p.at;
+        p.w2((u16)(BR | (1u << 4)), (u16)L);
+        u32 back = p.at;
+        p.org(0x10000 + L);
+        p.w(INC_A0);
+        p.w2(BR, (u16)L);
+        p.org(back);
+        far_loop = true;
     }
     // ---- handlers
     auto handler = [&](u32 at, bool with_ctx, u16 ackbits) {
@@ -222,8 +234,8 @@ inline Plan make_plan(Rng& g) {
         }
         pl.events.push_back(ev);
     }
-    pl.shape = fmt("t0=%s t1=%s idle=%d audio=%d", tc[0].on ? std::to_string(tc[0].mode).c_str() : "-",
-                   tc[1].on ? std::to_string(tc[1].mode).c_str() : "-", use_idle, audio);
+    pl.shape = fmt("t0=%s t1=%s idle=%d%s audio=%d", tc[0].on ? std::to_string(tc[0].mode).c_str() : "-",
+                   tc[1].on ? std::to_string(tc[1].mode).c_str() : "-", use_idle, far_loop ? "(two-page busy loop)" : "", audio);
     pl.desc = fmt("en=%04x/%04x/%04x/v%04x mod3=%04x nmain=%u idle=%d t0(on=%d mode=%u start=%u) t1(on=%d mode=%u start=%u) audio=%d words=%u",
                   en[0], en[1], en[2], env, mod3, nmain, use_idle, tc[0].on, tc[0].mode, tc[0].start, tc[1].on, tc[1].mode,
                   tc[1].start, audio, audio_words);
